@@ -21,6 +21,7 @@ import (
 	"time"
 
 	"deps.dev/util/resolve/dep"
+	"deps.dev/util/resolve/internal/deptest"
 )
 
 // NodeID identifies a node in a Graph.
@@ -434,7 +435,7 @@ func (g *Graph) String() string {
 		fmt.Fprint(&b, prefix1)
 		if n.n == nil {
 			if !n.dt.IsRegular() {
-				fmt.Fprintf(&b, "%s | ", n.dt)
+				fmt.Fprintf(&b, "%s | ", deptest.String(n.dt))
 			}
 			fmt.Fprintf(&b, "$%d@%s\n", n.label, req)
 			return
@@ -443,7 +444,7 @@ func (g *Graph) String() string {
 			fmt.Fprintf(&b, "%d: ", n.label)
 		}
 		if !n.dt.IsRegular() {
-			fmt.Fprintf(&b, "%s | ", n.dt)
+			fmt.Fprintf(&b, "%s | ", deptest.String(n.dt))
 		}
 		pt := ""
 		if prefix1 == "" {
